@@ -2011,6 +2011,14 @@ class QuicConnection:
 
         # assign new CID if we retired the active one
         if change_cid:
+            if not self._peer_cid_available:
+                # every connection ID we hold has to be retired and the frame
+                # did not provide a usable one
+                raise QuicConnectionError(
+                    error_code=QuicErrorCode.PROTOCOL_VIOLATION,
+                    frame_type=frame_type,
+                    reason_phrase="Retire Prior To leaves no usable connection ID",
+                )
             self._consume_peer_cid()
 
         # check number of active connection IDs, including the selected one
